@@ -359,9 +359,7 @@ func c14Run(s *sim.Sim, p *sim.Params) {
 		}
 	}
 	c14bulk(s, dir, backendKind, &sample)
-	if backendKind == 3 {
-		c14orm(s, dir, &sample)
-	}
+	c14orm(s, dir, &sample) // (flat, nested and history-mix ORM transactions; own Postgres-struct handle)
 	s.Note("executions", execs)
 }
 
@@ -659,7 +657,7 @@ func c14bulk(s *sim.Sim, dir string, backendKind int, sample *[]string) {
 	// a row of the wrong width (one value short, or one too many) somewhere in the batch: the
 	// statement cannot be built for it, so nothing may be inserted
 	badWidth := -1
-	if dupAt == nrows && s.Choose(sim.SWork, 4) == 0 {
+	if dupAt == nrows && nrows > 1 && s.Choose(sim.SWork, 2) == 0 {
 		badWidth = s.Choose(sim.SWork, nrows)
 		if s.Choose(sim.SWork, 2) == 0 {
 			vals[badWidth] = vals[badWidth][:1]
